@@ -180,7 +180,7 @@ def build(tcfg: dict, script: list[str], edits: tuple[float, ...], **kw: Any) ->
     user: list[tuple] = [(1.0, 'create', 'a')]
     for i, te in enumerate(edits):
         user.append((te, 'spec', 'a', 10 + i))
-    return C10Scenario(handlers=handlers, user=user, horizon=40.0, timer=tcfg, script=script, edits=list(edits),
+    return C10Scenario(handlers=handlers, user=user, horizon=kw.pop('horizon', 40.0), timer=tcfg, script=script, edits=list(edits),
                        settings={'persistence__consistency_timeout': 5.0}, **kw)
 
 
@@ -227,6 +227,12 @@ def run(tier: str, seed: int) -> CheckResult:
     plain += [build(t, s, e, backoff=0.0, delays=False, early_user=False, time_dev=False)
               for t in (dict(interval=4.0), dict(interval=4.0, sharp=True), dict(interval=4.0, idle=3.0))
               for s in (['arb', 'ok', 'ok'], ['arb~1', 'arb', 'ok'], ['ok', 'arb', 'ok']) for e in ((), (2.5,))]
+    # schedules at the scale of days (one sleep longer than a day)
+    DAY = 86400.0
+    plain += [build(t, s, e, horizon=h, delays=False, early_user=False, time_dev=False)
+              for t, h in ((dict(interval=2 * DAY), 5 * DAY), (dict(interval=3 * DAY, sharp=True), 7 * DAY), (dict(interval=4.0, initial_delay=1.5 * DAY), 1.5 * DAY + 30),
+                           (dict(interval=2 * DAY, idle=1.25 * DAY), 5 * DAY), (dict(idle=1.5 * DAY), 4 * DAY))
+              for s in (['ok', 'ok', 'ok'], ['ok~1', 'temp2', 'ok']) for e in ((), (2.5,))]
     plain += [build_siblings(idle, flip, sib, delays=False, early_user=False, time_dev=False)
               for idle in (3.0, 6.0) for flip in (12.0, 20.0) for sib in ('timer', 'daemon')]
     plain += [build_toggle(t, off, off + d, delays=False, early_user=False, time_dev=False)
